@@ -27,6 +27,8 @@ type genLayout struct {
 	audioT     int    // audio timescale = sampling rate (0 = 48000)
 	merged2    bool   // a second video track V2 whose segments are pairs of V1's (half as many segments per loop)
 	notFor     string // properties (space separated) whose generators assume one segment grid for all representations
+	onlyFor    string // the asset exists only for these properties' generators
+	shortLast  int    // the last sample of the first video segment is this many ticks shorter (the file ends before the next starts)
 	stpp       bool   // stpp text track at timescale 1000 following the video grid (needs ms-integral video durations)
 	thumbs     bool   // thumbnail track (needs uniform video durations)
 	textShort  int    // number of trailing video segments without a text segment (an asset that must be left out)
@@ -47,6 +49,9 @@ var genLayouts = []genLayout{
 	{name: "gen_one", videoT: 48000, frameDur: 1920, videoSegs: []int{192000}, audioCodec: "aac", audioSegs: []int{187}, thumbs: true},
 	// 29.97 fps video with 44.1 kHz audio: segment starts that are no whole number of audio ticks
 	{name: "gen_ntsc441", videoT: 90000, frameDur: 3003, videoSegs: []int{180180, 180180, 180180, 180180}, audioCodec: "aac", audioSegs: []int{87, 86, 86, 86}, audioT: 44100},
+	// the first segment file ends before the second starts (a packager's wrong last-sample duration): the loaded table
+	// must be contiguous all the same
+	{name: "gen_gap", videoT: 90000, frameDur: 3600, videoSegs: []int{180000, 180000, 180000}, audioCodec: "aac", audioSegs: []int{94, 94, 94}, shortLast: 600, onlyFor: "C15"},
 	{name: "gen_short", videoT: 15360, frameDur: 512, videoSegs: []int{15360, 15360, 15360}, audioCodec: "aac", audioSegs: []int{47, 47, 46}, stpp: true},
 }
 
@@ -163,6 +168,9 @@ func genAsset(root string, L genLayout) error {
 			data := []byte(fmt.Sprintf("%s-v-frame-%06d", L.name, frameNo))
 			samples = append(samples, mp4.FullSample{Sample: mp4.Sample{Flags: flags, Dur: uint32(L.frameDur), Size: uint32(len(data))}, Data: data})
 			frameNo++
+		}
+		if i == 0 && L.shortLast > 0 && len(samples) > 0 {
+			samples[len(samples)-1].Dur -= uint32(L.shortLast)
 		}
 		name := fmt.Sprintf("V1/%d.m4s", i+1)
 		if L.timeURI {
@@ -297,6 +305,9 @@ func buildVodRoot() (string, error) {
 	}
 	for _, L := range genLayouts {
 		if curProp != "" && strings.Contains(" "+L.notFor+" ", " "+curProp+" ") {
+			continue
+		}
+		if L.onlyFor != "" && !strings.Contains(" "+L.onlyFor+" ", " "+curProp+" ") {
 			continue
 		}
 		if err := genAsset(root, L); err != nil {
